@@ -191,6 +191,26 @@ pub fn c03_worker(ctx: &mut Ctx) {
                 ctx.note_nontrivial(case_hash(&case, &format!("{}{}", op.name(), f32_run)));
             }
         }
+        if i % 64 == 7 && !slow && case.family != "S-degenerate" {
+            // "every call returns", also a call made while its thread is shutting down (from thread-local destructors)
+            match run_at_thread_exit(&case.a, &case.b) {
+                Ok(per_guard) => {
+                    for (gi, results) in per_guard.iter().enumerate() {
+                        for (oi, r) in results.iter().enumerate() {
+                            ctx.evaluations += 1;
+                            ctx.cnt("calls_from_thread_local_destructors", 1);
+                            if let Err(f) = r {
+                                ctx.violation(&format!("failure:{}", f.symptom()), &format!("{} called from a thread-local destructor (guard {}) does not return normally: {:?}", OPS[oi].name(), gi, f), boolean_replay("C03", &case, Some(OPS[oi]), false, Pairing::MM, json!({"at_thread_exit": true})));
+                            }
+                        }
+                    }
+                }
+                Err(m) => {
+                    ctx.notes.push(format!("HARNESS-ERROR {}", m));
+                    ctx.cnt("harness_errors", 1);
+                }
+            }
+        }
         ctx.end();
         if i % 9973 == 0 {
             ctx.sample(case_brief(&case));
@@ -612,7 +632,9 @@ pub fn c08_check(case: &Case, rng: &mut Rng, f32_run: bool, counts: &mut std::co
         let sc = case.scale();
         (((1e-4 / sc).log2().ceil() as i64).min(0), ((1e17 / sc).log2().floor() as i64).max(0))
     } else {
-        (-200, 200)
+        // downwards 2^-200 keeps squared cross products above the underflow threshold; upwards they may overflow to
+        // +inf, which is harmless (they are only tested for being positive), so the range is asymmetric
+        (-200, 400)
     };
     for _ in 0..2 {
         let k = rng.range(kmin, kmax) as i32;
@@ -724,8 +746,15 @@ fn far_part(a: &MP, b: &MP, side: u64, exact: bool) -> Option<Poly> {
     all.extend(b.iter().cloned());
     let (lo, hi) = bbox(&all)?;
     let span = (hi.0 - lo.0).max(hi.1 - lo.1).max(1e-300);
-    let d = if exact { (2.0f64).powi(span.log2().ceil() as i32 + 2) } else { span * 3.0 };
-    let s = if exact { (2.0f64).powi(span.log2().ceil() as i32 - 1).max(1.0) } else { span * 0.25 };
+    let mut d = if exact { (2.0f64).powi(span.log2().ceil() as i32 + 2) } else { span * 3.0 };
+    let mut s = if exact { (2.0f64).powi(span.log2().ceil() as i32 - 1).max(1.0) } else { span * 0.25 };
+    if side >= 4 {
+        // very far: 2^40 .. 2^70 spans away (mixed magnitudes: the unit in the last place of the far coordinates exceeds
+        // the whole near geometry); the part itself is scaled up so that it stays a proper triangle at that distance
+        let k = [40, 56, 70][(side as usize / 4 - 1) % 3];
+        d *= (2.0f64).powi(k);
+        s = d * (2.0f64).powi(-20);
+    }
     let (cx, cy) = match side % 4 {
         0 => (lo.0 - d, lo.1),
         1 => (hi.0 + d, lo.1),
@@ -783,8 +812,12 @@ pub fn c09_check(case: &Case, f32_run: bool, counts: &mut std::collections::BTre
         }
     }
     let hooks_before = (hit(geo_booleanop::verif::Site::TrivialResult), hit(geo_booleanop::verif::Site::SubEarlyBreak));
-    for side in 0..4u64 {
+    let very_far = 4 + 4 * (crate::util::fnv64(case.desc.as_bytes()) % 3);
+    for side in (0..4u64).chain(very_far..very_far + 4) {
         for on_subject in [true, false] {
+            if side >= 4 && (f32_run || (side + on_subject as u64) % 2 == 1) {
+                continue; // half of the very far placements per case, f64 only
+            }
             let part = match far_part(&case.a, &case.b, side, exact) {
                 Some(p) => p,
                 None => continue,
@@ -798,7 +831,7 @@ pub fn c09_check(case: &Case, f32_run: bool, counts: &mut std::collections::BTre
             } else {
                 b2.insert(0, part.clone())
             }
-            *counts.entry(format!("far-part:{}", ["left", "right", "above", "below"][side as usize])).or_insert(0) += 1;
+            *counts.entry(format!("far-part:{}{}", if side >= 4 { "very-far-" } else { "" }, ["left", "right", "above", "below"][side as usize % 4])).or_insert(0) += 1;
             for (oi, &op) in OPS.iter().enumerate() {
                 let r = run(&a2, &b2, op, f32_run)?;
                 let contributes = match op {
@@ -954,6 +987,19 @@ pub fn c10_check(case: &Case, counts: &mut std::collections::BTreeMap<String, u6
     }
     c05_check(case, true, &w).map_err(|(s, d)| (format!("f32:{}", s), d))?;
     *counts.entry("f32_consistency_checks".into()).or_insert(0) += 1;
+    // "both are correct": the double-precision instantiation, called on this thread right after the single-precision one
+    // on numerically identical operands, must still be accurate to double precision (nothing computed by one
+    // instantiation may leak into the other)
+    if !case.exact {
+        let w64 = witnesses(case, case.tol(false));
+        for op in OPS {
+            let r64 = run(&case.a, &case.b, op, false)?;
+            *counts.entry("f64_operations_right_after_f32_on_the_same_operands".into()).or_insert(0) += 1;
+            check_region(&w64, op, &r64).map_err(|m| ("f64-after-f32:region".to_string(), format!("{} (f64 after f32): {}", op.name(), m)))?;
+            let assembled = !bboxes_disjoint(&case.a, &case.b);
+            check_provenance(case, &r64, case.tol(false), assembled, &mut ProvStats::default()).map_err(|m| ("f64-after-f32:provenance".to_string(), format!("{} (f64 right after the same operation in f32): {}", op.name(), m)))?;
+        }
+    }
     Ok(())
 }
 
